@@ -1028,6 +1028,7 @@ type swamp struct {
 
 	valueBeaconASC  beacon.Beacon // ordered list of the Treasures by the ascendant Value field
 	valueBeaconDESC beacon.Beacon // ordered list of the Treasures by the descendant Value field
+	valueBeaconType BeaconType    // value type the value beacons were built (sorted) with
 
 	// -------------------  the following fields are used for the unordered list -------------------
 	// treasuresWaitingForWriter just the key of the treasures that are waiting for the writer to write them to the chroniclerInterface
@@ -3180,6 +3181,10 @@ func (s *swamp) buildBeacon(beaconASC beacon.Beacon, beaconDESC beacon.Beacon, b
 		return
 	}
 
+	if beaconASC == s.valueBeaconASC {
+		s.valueBeaconType = bc
+	}
+
 	if !beaconASC.IsInitialized() {
 		beaconASC.SetInitialized(true)
 		beaconASC.PushManyFromMap(s.treasuresForBeacon(bc))
@@ -3351,15 +3356,76 @@ func (s *swamp) addToValueBeacon(treasureInterface treasure.Treasure) {
 		return
 	}
 	s.valueBeaconASC.Add(treasureInterface)
-	err := s.valueBeaconASC.SortByValueInt64ASC()
+	err := sortValueBeacon(s.valueBeaconASC, s.valueBeaconType, false)
 	if err != nil {
 		slog.Error("failed to sort valueIntBeaconASC", "error", err)
 	}
 	s.valueBeaconDESC.Add(treasureInterface)
-	err = s.valueBeaconDESC.SortByValueInt64DESC()
+	err = sortValueBeacon(s.valueBeaconDESC, s.valueBeaconType, true)
 	if err != nil {
 		slog.Error("failed to sort valueIntBeaconDESC", "error", err)
 	}
+}
+
+// sortValueBeacon re-sorts a value beacon with the comparator of the value
+// type it was built with (the cold build in buildBeacon uses the same table).
+func sortValueBeacon(b beacon.Beacon, bc BeaconType, desc bool) error {
+	switch bc {
+	case BeaconTypeValueUint8:
+		if desc {
+			return b.SortByValueUint8DESC()
+		}
+		return b.SortByValueUint8ASC()
+	case BeaconTypeValueUint16:
+		if desc {
+			return b.SortByValueUint16DESC()
+		}
+		return b.SortByValueUint16ASC()
+	case BeaconTypeValueUint32:
+		if desc {
+			return b.SortByValueUint32DESC()
+		}
+		return b.SortByValueUint32ASC()
+	case BeaconTypeValueUint64:
+		if desc {
+			return b.SortByValueUint64DESC()
+		}
+		return b.SortByValueUint64ASC()
+	case BeaconTypeValueInt8:
+		if desc {
+			return b.SortByValueInt8DESC()
+		}
+		return b.SortByValueInt8ASC()
+	case BeaconTypeValueInt16:
+		if desc {
+			return b.SortByValueInt16DESC()
+		}
+		return b.SortByValueInt16ASC()
+	case BeaconTypeValueInt32:
+		if desc {
+			return b.SortByValueInt32DESC()
+		}
+		return b.SortByValueInt32ASC()
+	case BeaconTypeValueFloat32:
+		if desc {
+			return b.SortByValueFloat32DESC()
+		}
+		return b.SortByValueFloat32ASC()
+	case BeaconTypeValueFloat64:
+		if desc {
+			return b.SortByValueFloat64DESC()
+		}
+		return b.SortByValueFloat64ASC()
+	case BeaconTypeValueString:
+		if desc {
+			return b.SortByValueStringDESC()
+		}
+		return b.SortByValueStringASC()
+	}
+	if desc {
+		return b.SortByValueInt64DESC()
+	}
+	return b.SortByValueInt64ASC()
 }
 
 // sendEventToHydra sends the event to the ManagerInterface
